@@ -752,6 +752,89 @@ def k_expiry(flavour: str) -> list[Result]:
                        paths, prop, assume, cex)]
 
 
+def k_expiry_h2(flavour: str) -> list[Result]:
+    """HTTP/2 connection: `_response_closed(stream_id)` of one of n registered streams at instant t0, then
+    `has_expired()` at a later instant t1; instants and expiry are REAL numbers, n in {1, 2}."""
+    import importlib
+
+    mod = importlib.import_module(f"httpcore.{'_async' if flavour == 'async' else '_sync'}.http2")
+    cls = getattr(mod, "AsyncHTTP2Connection" if flavour == "async" else "HTTP2Connection")
+    name = f"{cls.__name__}._response_closed+has_expired"
+    closer = "aclose" if flavour == "async" else "close"
+    out: list[Result] = []
+    for n_streams in (1, 2):
+        try:
+            fns = functions_of(cls)
+            keep = {k: v for k, v in fns.items() if k in ("_response_closed", "has_expired", closer)}
+            keep["driver"] = ast.parse("def driver(self):\n    self._response_closed(1)\n    self._later()\n    return self.has_expired()\n").body[0]  # type: ignore[assignment]
+            T0, T1 = z3.Real("t0"), z3.Real("t1")
+            E, En = z3.Real("expiry"), z3.Bool("expiry_is_none")
+            X, Xn = z3.Real("old_deadline"), z3.Bool("old_deadline_is_none")
+            TERM, USED = z3.Bool("connection_terminated"), z3.Bool("used_all_stream_ids")
+            STATE = z3.Int("state")
+
+            def env(it: Interp, fn: str, args: list, kwargs: dict) -> typing.Any:
+                if fn == "time.monotonic":
+                    later = any(c[0] == "self._later" for c in it.path.calls)
+                    it.path.calls.append((fn, (), {}))
+                    return T1 if later else T0
+                it.path.calls.append((fn, tuple(args), kwargs))
+                if fn == "self._later" or fn.endswith("_max_streams_semaphore.release") or fn.endswith("_h2_state.close_connection") \
+                        or fn.endswith("_network_stream." + closer):
+                    return None
+                raise Unsupported(f"environment call {fn}")
+
+            def mk(n_streams: int = n_streams) -> dict[str, typing.Any]:
+                return {"self": Obj(_state_lock=Obj(), _max_streams_semaphore=Obj(), _h2_state=Obj(), _network_stream=Obj(),
+                                    _events={sid: [] for sid in (1, 3)[:n_streams]}, _state=STATE, _connection_terminated=TERM,
+                                    _used_all_stream_ids=USED, _keepalive_expiry=Opt(En, E), _expire_at=Opt(Xn, X))}
+
+            g = {"HTTPConnectionState": I._Namespace(**_STATE), "time": I._Namespace()}
+            assume = [T1 >= T0, E >= 0, z3.Or(STATE == _STATE["ACTIVE"], STATE == _STATE["IDLE"], STATE == _STATE["CLOSED"])]
+            it = Interp(keep, env, unwind=2, globals_=g)
+            paths = it.explore("driver", mk, assume)
+        except (Unsupported, UnwindingExceeded) as e:
+            out.append(Result(name, f"expiry ({n_streams} streams)", "unsupported", str(e)))
+            continue
+        except (z3.Z3Exception, TypeError, AttributeError, KeyError) as e:
+            out.append(Result(name, f"expiry ({n_streams} streams)", "unsupported", f"{type(e).__name__}: {e}"))
+            continue
+
+        def prop(p: I.Path, n_streams: int = n_streams) -> typing.Any:
+            if p.raised is not None:
+                return False
+            a = p.locals["self"].attrs
+            st = a["_state"]
+            eq = lambda v: (st == v) if I.is_sym(st) else z3.BoolVal(st == v)  # noqa: E731
+            ret = I.truthy(p.ret)
+            ret = ret if I.is_sym(ret) else z3.BoolVal(bool(ret))
+            released = len([c for c in p.calls if c[0].endswith("_max_streams_semaphore.release")]) == 1
+            closed_call = any(c[0].endswith("_network_stream." + closer) for c in p.calls)
+            last = n_streams == 1
+            gone = 1 not in a["_events"]
+            old_rule = z3.And(z3.Not(Xn), T1 > X)
+            if not last:
+                # other streams are still open: state untouched, deadline untouched, nothing closed
+                body = z3.And(eq(STATE), ret == old_rule, z3.BoolVal(not closed_call))
+            else:
+                idle_case = z3.And(z3.Not(TERM), STATE == _STATE["ACTIVE"])
+                want_idle = z3.And(z3.Or(z3.And(z3.Not(USED), eq(_STATE["IDLE"])), z3.And(USED, eq(_STATE["CLOSED"]))),
+                                   ret == z3.Or(z3.And(z3.Not(En), T1 > T0 + E), z3.And(En, old_rule)))
+                want_term = z3.And(eq(_STATE["CLOSED"]), z3.BoolVal(closed_call))
+                want_other = z3.And(eq(STATE), ret == old_rule)
+                body = z3.If(TERM, want_term, z3.If(idle_case, want_idle, want_other))
+            return z3.And(z3.BoolVal(released and gone), body)
+
+        def cex(m: z3.ModelRef, p: I.Path) -> dict[str, typing.Any]:
+            ev = lambda x: str(m.eval(x, model_completion=True))  # noqa: E731
+            return {"proto": "h2", "t0": ev(T0), "t1": ev(T1), "expiry": None if ev(En) == "True" else ev(E)}
+
+        out.append(_discharge(it, name, f"closing one of {n_streams} stream(s): its permit is released exactly once and its queue is gone; the last stream turns an "
+                              "ACTIVE connection IDLE and arms the deadline t0 + expiry (real-valued), a terminated connection is closed, "
+                              "other streams keep the state and the deadline untouched", paths, prop, assume, cex))
+    return out
+
+
 def replay_expiry(flavour: str, args: dict[str, typing.Any]) -> bool:
     """Re-run the counterexample on the real class with exact rationals for the instants."""
     import importlib
@@ -759,6 +842,8 @@ def replay_expiry(flavour: str, args: dict[str, typing.Any]) -> bool:
 
     from .. import vrt
 
+    if args.get("proto") == "h2":
+        return _replay_expiry_h2(flavour, args)
     mod = importlib.import_module(f"httpcore.{'_async' if flavour == 'async' else '_sync'}.http11")
     cls = getattr(mod, "AsyncHTTP11Connection" if flavour == "async" else "HTTP11Connection")
     F = lambda v: None if v is None else Fraction(str(v).replace("?", ""))  # noqa: E731
@@ -952,6 +1037,61 @@ def replay_interim(flavour: str, args: dict[str, typing.Any]) -> bool:
         mod.h11 = saved
     return not (out[1] == evs[want_i].status_code and out[2] == b"r%d" % want_i and len(queue) == len(evs) - want_i - 1
                 and out[3] == [(b"X-Index", str(want_i).encode())])
+
+
+def _replay_expiry_h2(flavour: str, args: dict[str, typing.Any]) -> bool:
+    """Real HTTP2Connection object, one registered stream, ACTIVE: close it at t0 and ask at t1."""
+    import importlib
+    from fractions import Fraction
+
+    from .. import vrt
+
+    mod = importlib.import_module(f"httpcore.{'_async' if flavour == 'async' else '_sync'}.http2")
+    cls = getattr(mod, "AsyncHTTP2Connection" if flavour == "async" else "HTTP2Connection")
+    F = lambda v: None if v is None else Fraction(str(v).replace("?", ""))  # noqa: E731
+    t0, t1, e = F(args["t0"]), F(args["t1"]), F(args["expiry"])
+    released: list[int] = []
+
+    class Sem:
+        def release(self) -> None:
+            released.append(1)
+
+    class ASem:
+        async def release(self) -> None:
+            released.append(1)
+
+    conn = cls.__new__(cls)
+    conn._state_lock = (mod.AsyncLock if flavour == "async" else mod.Lock)()
+    conn._max_streams_semaphore = ASem() if flavour == "async" else Sem()
+    conn._events = {1: []}
+    conn._state = mod.HTTPConnectionState.ACTIVE
+    conn._connection_terminated = False
+    conn._used_all_stream_ids = False
+    conn._keepalive_expiry = e
+    conn._expire_at = None
+    clock = [t0]
+
+    class T:
+        @staticmethod
+        def monotonic() -> typing.Any:
+            return clock[0]
+
+    saved = mod.time
+    mod.time = T
+    try:
+        if flavour == "async":
+            vrt.new_runtime()
+            vrt.run_single(conn._response_closed(1))
+        else:
+            conn._response_closed(1)
+        clock[0] = t1
+        got = conn.has_expired()
+    except Exception:
+        return True
+    finally:
+        mod.time = saved
+    want = e is not None and t1 > t0 + e
+    return not (conn._state == mod.HTTPConnectionState.IDLE and bool(got) == bool(want) and len(released) == 1 and 1 not in conn._events)
 
 
 def validate(seed: int = 0) -> tuple[int, list[str]]:
